@@ -4,7 +4,7 @@ import numpy as np
 from vlib import caseio, runner
 
 ID = "C07"
-COQ_TARGETS = ["C07_Extract.vo", "C07_Proofs.vo", "C07_Regress.vo"]
+COQ_TARGETS = ["C07_Extract.vo", "C07_Proofs.vo", "C07_Partition.vo", "C07_Rounding.vo", "C07_Regress.vo"]
 EXTRACTED = "C07_model"
 DRIVER = "drv_C07.ml"
 HARNESS = "h_C07.cpp"
@@ -16,11 +16,14 @@ REQUIRED_THEOREMS = ["C07_length", "C07_copy", "C07_parents_sorted", "C07_parent
                      "C07_u1_zero_boundary_refuted", "C07_neff_formula", "C07_neff_range",
                      "C07_selection_interval", "C07_lse_spec", "C07_lse_normalises",
                      "C07p_num_prior", "C07p_partition", "C07p_parents", "C07p_copy", "C07p_uniform", "C07p_reports_N", "C07p_count_bound",
-                     "C07_copy_members", "C07p_copy_members", "C07p_parent_exact", "C07p_fresh_left"]
+                     "C07_copy_members", "C07p_copy_members", "C07p_parent_exact", "C07p_fresh_left",
+                     "C07p_partition_relational", "C07p_partition_total_order", "C07p_ties_any_choice", "C07p_parents_survive",
+                     "C07_count_bound_cumulative", "C07_count_bound_rounded"]
 RULE = ("cases from one seeded stream: N in 1..200, log-weight vectors uniform / one-hot / with exact zeros (-inf) / geometric over 300 "
-        "orders of magnitude / dyadic / random / with exact ties, layouts linear / Euler-circular / quaternion (dc in 1..2, with and without a "
-        "linear part; dim != dim_covariance for quaternions), 32-bit seeds, 1..3 successive draws on the same object, an earlier call with another N "
-        "on the same object (explicit corpus + 12%); prior variant with ratio in {0, 0.25, 0.5, 0.9, random in [0,1)} and a counting or grid initialiser; "
+        "orders of magnitude / dyadic / random / with exact ties / with a tie class straddling the split of the prior variant (more exact zeros than replaced "
+        "particles, duplicated weights followed or preceded by strictly heavier ones, all the mass on a late particle, tie class up to 300 orders below the heavy ones), layouts linear / Euler-circular / quaternion (dc in 1..2, with and without a "
+        "linear part; dim != dim_covariance for quaternions), 32-bit seeds and the default-seed constructors (Resampling(), ResamplingWithPrior(init, ratio), ResamplingWithPrior(init) with its ratio 0.5), 1..3 successive draws on the same object, an earlier call with another N "
+        "on the same object (explicit corpus + 12%); prior variant with ratio in {0, 0.125, 0.25, 0.5, 0.7, 0.9, 0.999, random in [0,1)} and a counting, grid or failing initialiser; the partition clause is decided relationally (any choice among exact ties is accepted, a strictly heavier particle must survive); "
         "non-trivial = N >= 2 and not uniform; distinct by (kind, weight class, N, ratio class)")
 TRUSTED_BASE = ["Coq 8.16.1 kernel (coqc); the four real-number axioms of the standard library (sig_forall_dec, sig_not_dec, functional_extensionality_dep, classic)",
                 "extraction (ExtrOcamlBasic only) and ocaml/float_ops.ml, ocaml/drv_C07.ml, ocaml/caseio.ml",
@@ -29,13 +32,18 @@ TRUSTED_BASE = ["Coq 8.16.1 kernel (coqc); the four real-number axioms of the st
                 "correspondence is sampled: agreement is established on the generated cases only"]
 ASSUMPTIONS = ["the random offset satisfies 0 < u1 < 1/N (std::uniform_real_distribution draws from [0, 1/N); u1 = 0 has probability 2^-53 and is the documented boundary C07_u1_zero_boundary_refuted)",
                "ParticleSetInitialization::initialize keeps the size of the set it is given (checked on the harness initialisers)",
-               "std::sort orders the indices by increasing weight; order among equal weights unspecified (compared through the weights)"]
+               "std::sort orders the indices by increasing weight; order among equal weights unspecified: the comparison goes through the weights, the oracle accepts every admissible choice among ties (C07p_ties_any_choice)",
+               "the comparison of the sort is a total preorder on the weights (no NaN log-weight): premise of C07p_partition_total_order, true of the reals"]
 
-COUNTS = {"quick": 400, "thorough": 15000}
+COUNTS = {"quick": 800, "thorough": 15000}
 NEAR = 1e-12
 ID0 = 1000.0           # state row 0 of original particle i is ID0 + i
 
-_stats = {"near_boundary_skipped": 0, "tie_cases": 0, "threshold_within_ulps_excluded": 0, "prior_count_bound_skipped_ties_at_threshold": 0}
+_stats = {"near_boundary_skipped": 0, "tie_cases": 0, "threshold_within_ulps_excluded": 0,
+          "prior_ties_straddling_split_decided_relationally": 0, "prior_heavier_particle_after_tied_ones": 0,
+          "plain_exact_cumulative_ties": 0, "plain_parents_equal_up_to_cumulative_tie": 0,
+          "correspondence_differences_by_class": {}, "max_count_excess_over_one_normalised_input": -1.0,
+          "plain_count_bound_not_evaluated_sum_far_from_one": 0, "plain_surplus_to_last_particle": 0}
 
 
 # ------------------------------------------------------------------ generation
@@ -101,8 +109,49 @@ def special_case(rng, cid, which, N):
     return None
 
 
-def weights(rng, N, cls):
-    if cls == "uniform":
+def split_ties(rng, N, k):
+    """weight vectors whose tie class STRADDLES the split after the k lightest particles: more particles tied at the
+    (k+1)-th smallest weight than there are places left among the survivors.  Patterns: exact zeros (log-weight -inf)
+    first / last / scattered with fewer replaced than zeros, all the mass on a late particle, duplicated weights followed
+    (or preceded) by strictly heavier ones, lighter distinct particles below the tie class, two tie classes.
+    k = 0 (nothing replaced) and small N degrade to ordinary tied vectors."""
+    k = max(0, min(k, N - 1))
+    pat = rng.choice(["zeros", "zeros", "onehot_late", "dup", "dup", "dup_light", "two_classes"])
+    if pat == "onehot_late" or N < 3:
+        w = np.zeros(N); w[N - 1 - (rng.randrange(min(N, 3)) if rng.random() < 0.5 else 0)] = 1.0
+        return w
+    if pat == "zeros":
+        z = rng.randint(min(k + 1, N - 1), N - 1)            # more zeros than replaced particles, at least one heavy
+        heavy = [rng.random() + 0.05 for _ in range(N - z)]
+        if rng.random() < 0.3:
+            heavy = [rng.choice([1.0, 2.0]) for _ in heavy]   # the heavy ones tied among themselves too
+        vals = [0.0] * z + heavy
+    else:
+        light = rng.randint(0, max(0, k - 1)) if pat in ("dup_light", "two_classes") else 0
+        t_min = k - light + 1                                 # the class must reach over the split
+        t = rng.randint(min(t_min, N - light), max(min(t_min, N - light), N - light - (1 if rng.random() < 0.85 else 0)))
+        nh = N - light - t
+        v = rng.random() + 0.2
+        lights = [v * (0.1 + 0.8 * rng.random()) for _ in range(light)]
+        if pat == "two_classes" and light >= 2:
+            lights = [v * 0.5] * light
+        big = rng.choice([1.0, 1.0, 1e3, 1e150, 1e300])     # the tie class down to 300 orders of magnitude below the heavy ones
+        heavies = [v * (1.5 + rng.random()) * big for _ in range(nh)]
+        if pat == "two_classes" and nh >= 2:
+            heavies = [v * 3.0] * nh
+        vals = lights + [v] * t + heavies
+    order = rng.choice(["light_first", "light_first", "heavy_first", "shuffle"])
+    if order == "heavy_first":
+        vals = vals[::-1]
+    elif order == "shuffle":
+        rng.shuffle(vals)
+    return np.array(vals, dtype=float)
+
+
+def weights(rng, N, cls, k=None):
+    if cls == "splitties":
+        w = split_ties(rng, N, rng.randint(0, max(0, N - 1)) if k is None else k)
+    elif cls == "uniform":
         w = np.ones(N)
     elif cls == "onehot":
         w = np.zeros(N); w[rng.randrange(N)] = 1.0
@@ -132,7 +181,8 @@ def weights(rng, N, cls):
     return lw
 
 
-CLASSES = ["uniform", "onehot", "zeros", "geometric", "dyadic", "random", "random", "ties", "dominant"]
+CLASSES = ["uniform", "onehot", "zeros", "geometric", "dyadic", "random", "random", "ties", "dominant", "splitties"]
+PRIOR_CLASSES = CLASSES + ["splitties", "splitties", "zeros", "ties"]      # the partition clause is decided on ties
 
 
 def pick_N(rng):
@@ -196,25 +246,26 @@ def generate(rng, tier):
         if sc is not None:
             cases.append(sc)
     for k in range(n):
-        prior = rng.random() < 0.4
-        cls = rng.choice(CLASSES)
+        prior = rng.random() < 0.45
+        cls = rng.choice(PRIOR_CLASSES if prior else CLASSES)
         N = pick_N(rng)
         if cls == "dyadic":
             N = 2 ** rng.randint(0, 7)
         dl, dc, quat = pick_layout(rng)
         meta = {"N": N, "cls": cls, "dl": dl, "dc": dc, "quat": quat}
-        lw = weights(rng, N, cls)
         if prior:
-            rc = rng.choice(["0", "0.25", "0.5", "0.7", "0.9", "0.999", "rnd"])
+            rc = rng.choice(["0", "0.125", "0.25", "0.5", "0.7", "0.9", "0.999", "rnd"])
+            # the two shorter constructors: (init, ratio) uses seed 1, (init) uses ratio 0.5 and seed 1
+            ctor = rng.choice(["3"] * 8 + ["2", "1"])
+            if ctor == "1":
+                rc = "0.5"
+            meta["ctor"] = ctor
             ratio = rng.random() if rc == "rnd" else float(rc)
             if rc == "0.7" and rng.random() < 0.5:
                 N = 10           # 10 * 0.7 is 7.000000000000001 in doubles (floor 7) although the double 0.7 is below 7/10
-                lw = None
-            npri = int(math.floor(N * ratio))
-            if lw is None:
                 meta["N"] = N
-                lw = weights(rng, N, cls)
-                npri = int(math.floor(N * ratio))
+            npri = int(math.floor(N * ratio))
+            lw = weights(rng, N, cls, npri)
             meta["rclass"] = rc
             meta["init"] = "count"
             meta["presize"] = rng.choice([0, 0, 0, -3, 2]) if N > 3 else 0
@@ -233,7 +284,9 @@ def generate(rng, tier):
             c = caseio.Case(k, "prior", meta)
             c.mat_shape("ratio", 1, 1, [ratio])
         else:
+            lw = weights(rng, N, cls)
             meta["xfer"] = rng.choice(["none", "none", "copy_ctor", "move_ctor", "move_assign", "copy_assign"])
+            meta["ctor"] = rng.choice(["seed"] * 9 + ["default"])       # Resampling(): seed 1
             c = caseio.Case(k, "plain", meta)
         c.mat_shape("lw", N, 1, lw)
         if rng.random() < 0.12:
@@ -241,7 +294,7 @@ def generate(rng, tier):
             meta["first"] = N1; c.meta["first"] = N1
             c.mat_shape("lw_first", N1, 1, weights(rng, N1, "random"))
         payload(rng, c, N, meta)
-        c.int("seed", rng.randrange(0, 2 ** 32))
+        c.int("seed", 1 if meta.get("ctor") in ("default", "2", "1") else rng.randrange(0, 2 ** 32))
         c.int("draws", rng.choice([1, 1, 1, 2, 3]))
         cases.append(c)
     return cases
@@ -323,6 +376,14 @@ def fresh_expected(c, npri):
 # ------------------------------------------------------------------ correspondence
 
 def compare(c, impl, model):
+    diffs = compare_(c, impl, model)
+    if diffs:
+        key = "%s/%s" % (c.kind, c.meta.get("cls"))
+        _stats["correspondence_differences_by_class"][key] = _stats["correspondence_differences_by_class"].get(key, 0) + 1
+    return diffs
+
+
+def compare_(c, impl, model):
     N = int(c.meta["N"])
     lw = c.get("lw").reshape(-1)
     diffs = caseio.compare_fields(impl, model, ["neff"], atol=0.0, rtol=1e-12)
@@ -333,19 +394,40 @@ def compare(c, impl, model):
     if "u1_expect" in c.meta and caseio.parse_float(c.meta["u1_expect"]) != impl.get("u1"):
         diffs.append("u1: the Python mirror of mt19937_64/uniform_real_distribution predicted %s, the harness drew %r" % (c.meta["u1_expect"], impl.get("u1")))
     if c.kind == "plain":
-        if not near:
-            if not same_bits(col(impl, "parents"), col(model, "parents")):
-                diffs.append("parents: impl=%s model=%s" % (col(impl, "parents")[:12], col(model, "parents")[:12]))
-            src = col(model, "src")
-            if impl.get("state").shape[1] == N and src.size == N:
-                dcv = c.get("cov").shape[0]
-                for nm, key in (("state", "src"), ("mean", "src_mean"), ("cov", "src_cov")):
-                    sm = col(model, key)
-                    bad = [j for j in range(N) if not same_bits(impl_block(impl, nm, j, dcv), column_of(c, nm, int(sm[j])))]
-                    if bad:
-                        diffs.append("copies: %s of output %d is not the model's source %d" % (nm, bad[0], int(sm[bad[0]])))
+        # Given u1 the selection is determined except where cumulative weights TIE exactly (zero weights, weights absorbed
+        # by the rounding of the running sum): particles a, b with csw(a) == csw(b) cover the same comb points, so the
+        # parents are compared through the cumulative weight, never by index alone.  Whether a zero-weight particle may
+        # be picked there is the oracle's business (C07:zero-weight-selected, C07:count-bound), not the comparison's.
+        cs = col(model, "csw")
+        pi, pm = col(impl, "parents"), col(model, "parents")
+        if cs is not None and cs.size > 1 and bool(np.any(np.diff(cs) == 0.0)):
+            _stats["plain_exact_cumulative_ties"] += 1
+
+        def tied(a, b):
+            a, b = int(a), int(b)
+            return a == b or (0 <= a < cs.size and 0 <= b < cs.size and cs[a] == cs[b])
+        if pi.shape != pm.shape:
+            diffs.append("parents: %d vs %d entries" % (pi.size, pm.size))
+        elif not same_bits(pi, pm):
+            badj = [j for j in range(pm.size) if not (pi[j] == np.round(pi[j]) and tied(pi[j], pm[j]))]
+            if badj:
+                j = badj[0]
+                diffs.append("parents: output %d: impl parent %d (cumulative weight %r), model parent %d (cumulative weight %r); impl=%s model=%s"
+                             % (j, int(pi[j]), float(cs[int(pi[j])]) if 0 <= int(pi[j]) < cs.size else None, int(pm[j]), float(cs[int(pm[j])]), pi[:12], pm[:12]))
             else:
-                diffs.append("sizes: impl state cols %d, model %d" % (impl.get("state").shape[1], src.size))
+                _stats["plain_parents_equal_up_to_cumulative_tie"] += 1
+        src = col(model, "src")
+        if impl.get("state").shape[1] == N and src.size == N and pi.size == N:
+            dcv = c.get("cov").shape[0]
+            for nm, key in (("state", "src"), ("mean", "src_mean"), ("cov", "src_cov")):
+                sm = col(model, key)
+                bad = [j for j in range(N) if not same_bits(impl_block(impl, nm, j, dcv), column_of(c, nm, int(sm[j])))
+                       and not (pi[j] == np.round(pi[j]) and int(pi[j]) != int(sm[j]) and tied(pi[j], sm[j])
+                                and same_bits(impl_block(impl, nm, j, dcv), column_of(c, nm, int(pi[j]))))]
+                if bad:
+                    diffs.append("copies: %s of output %d is not the model's source %d" % (nm, bad[0], int(sm[bad[0]])))
+        else:
+            diffs.append("sizes: impl state cols %d, model %d" % (impl.get("state").shape[1], src.size))
         return diffs
     # prior variant
     diffs += caseio.compare_fields(impl, model, ["components"], 0, 0)
@@ -384,11 +466,96 @@ def compare(c, impl, model):
 
 # ------------------------------------------------------------------ property oracle (on the implementation)
 
-def count_bound(v, sig, counts, Nw, near):
-    lim = 2.0 if near else 1.0 + 1e-9
+EPS = 2.0 ** -52
+
+
+def count_bound(v, sig, counts, Nw, lim, track=True):
+    """|count_i - N w_i| < lim, lim = 1 + 2 N delta as in C07_count_bound_rounded (delta bounds the distance of the
+    computed cumulative weights from the exact ones); the largest observed |count - N w| - 1 is kept in the evidence"""
+    if track and len(counts):
+        _stats["max_count_excess_over_one_normalised_input"] = max(_stats["max_count_excess_over_one_normalised_input"], float(np.max(np.abs(counts - Nw))) - 1.0)
     for i in range(len(counts)):
         if abs(counts[i] - Nw[i]) >= lim:
-            v.append((sig, "particle %d selected %d times, N*w = %.12g" % (i, counts[i], Nw[i]))); return
+            v.append((sig, "particle %d selected %d times, N*w = %.12g (allowed distance %.3g)" % (i, counts[i], Nw[i], lim))); return
+
+
+def partition_clause(v, N, ratio, k, lw, w, src, near):
+    """'replaces exactly the floor(ratio*N) lowest-weight particles ... resamples the rest', decided RELATIONALLY on the
+    implementation's output (src = input particle each of the N-k resampled outputs is a copy of).
+    A set R of k replaced particles is admissible iff no member of R is strictly heavier than a survivor; with
+    thr = the (k+1)-th smallest weight this forces  w < thr => replaced,  w > thr => survivor,  and leaves the choice
+    among the particles tied at thr free (m = N-k - #{w > thr} of them survive).  Every admissible choice has the same
+    multiset of surviving weights, hence the same normalising mass W, and a survivor is replicated within one of
+    (N-k) w / W.  So the output is consistent with SOME admissible R iff
+      (a) no output copies a particle lighter than thr,
+      (b) every particle heavier than thr has |count - (N-k) w/W| < 1,
+      (c) among the particles tied at thr: at most m are selected, each selected one obeys the bound, and at least m of
+          them are 'selected or allowed to be a survivor with count 0' ((N-k) thr/W < 1).
+    Nothing refers to an index order.  The library sorts on Eigen's vectorised exp(), which is not monotone on adjacent
+    doubles (packet vs. scalar tail): log-weights within a few ulps of thr are put in the free class, and counted."""
+    nr = N - k
+    # C07_count_bound_rounded for the N-k survivors: delta = (4 nr + 16) 2^-52 covers the library's own renormalisation
+    # (log-sum-exp on Eigen's vectorised exp, exp of the shifted log-weights), the running sum and the comb points
+    lim = 2.0 if near else 1.0 + 3.0 * nr * (4 * nr + 16) * EPS
+    thr = np.sort(lw)[k]
+    slack = 8 * max(float(np.spacing(abs(thr))), 2.3e-16) if np.isfinite(thr) else 0.0
+    lo = lw < thr - slack
+    hi = lw > thr + slack
+    free = ~lo & ~hi
+    if np.any(free & (lw != thr)):
+        _stats["threshold_within_ulps_excluded"] += 1
+    counts = np.bincount(np.array(src, dtype=int), minlength=N)
+    m = nr - int(np.sum(hi))                       # survivors to be taken from the free class (>= 1: thr itself is free)
+    straddles = int(np.sum(free)) > m
+    if straddles:
+        _stats["prior_ties_straddling_split_decided_relationally"] += 1
+        fi = np.nonzero(free)[0]
+        if np.any(hi[fi[0]:]):
+            _stats["prior_heavier_particle_after_tied_ones"] += 1
+    sig_n = "N=%d ratio=%g (replaced %d, resampled %d)" % (N, ratio, k, nr)
+    # (a)
+    low = [i for i in range(N) if lo[i] and counts[i] > 0]
+    if low:
+        i = low[0]
+        v.append(("C07:prior-kept-lowest", "%s: %d copies of particle %d (log-weight %r) survive although it is among the %d lowest (the %d-th smallest log-weight is %r)"
+                  % (sig_n, counts[i], i, lw[i], k, k + 1, thr)))
+    W = float(np.sum(np.sort(w)[k:]))               # mass of the N-k heaviest: the same for every admissible choice
+    if not (W > 0.0):
+        return
+    expd = nr * w / W
+    # (b) first the survivors that vanished altogether, then the ordinary bound
+    hidx = list(np.nonzero(hi)[0])
+    if hidx and not near:
+        _stats["max_count_excess_over_one_normalised_input"] = max(_stats["max_count_excess_over_one_normalised_input"],
+                                                                    float(np.max(np.abs(counts[hidx] - expd[hidx]))) - 1.0)
+    gone = [i for i in hidx if counts[i] == 0 and expd[i] >= lim]
+    if gone:
+        i = gone[0]
+        v.append(("C07:prior-heavier-replaced", "%s: particle %d (weight %.6g, strictly heavier than the %d-th smallest weight %.6g, so not among the %d lowest) "
+                  "has no copy in the output, expected within one of (N-k) w/W = %.6g; %d such particle(s)%s"
+                  % (sig_n, i, w[i], k + 1, math.exp(thr) if thr > -np.inf else 0.0, k, expd[i], len(gone),
+                     "; %d particles tie exactly at the split" % int(np.sum(free)) if straddles else "")))
+        return
+    for i in hidx:
+        if abs(counts[i] - expd[i]) >= lim:
+            v.append(("C07:prior-count-bound", "%s: particle %d selected %d times, (N-k) w/W = %.12g" % (sig_n, i, counts[i], expd[i])))
+            return
+    # (c)
+    fidx = np.nonzero(free)[0]
+    sel = [i for i in fidx if counts[i] > 0]
+    for i in sel:
+        if abs(counts[i] - expd[i]) >= lim:
+            v.append(("C07:prior-count-bound", "%s: particle %d (at the split weight) selected %d times, (N-k) w/W = %.12g" % (sig_n, i, counts[i], expd[i])))
+            return
+    may_be_silent = [i for i in fidx if counts[i] == 0 and expd[i] < lim]
+    if len(sel) > m:
+        v.append(("C07:prior-partition-size", "%s: %d of the %d particles at the split weight have copies in the output, only %d of them can survive"
+                  % (sig_n, len(sel), len(fidx), m)))
+    elif len(sel) + len(may_be_silent) < m:
+        i = [i for i in fidx if counts[i] == 0][0]
+        v.append(("C07:prior-count-bound" if not straddles else "C07:prior-partition-size",
+                  "%s: only %d of the %d particles at the split weight have copies in the output although %d of them survive and each is expected (N-k) w/W = %.6g times (e.g. particle %d: none)"
+                  % (sig_n, len(sel), len(fidx), m, expd[i], i)))
 
 
 def oracle(c, impl, model):
@@ -435,15 +602,30 @@ def oracle(c, impl, model):
         if bad:
             v.append(("C07:copy-not-parent", "output %d is not a copy (state, mean, covariance) of its reported parent %d" % (bad[0], int(par[bad[0]]))))
         counts = np.bincount(par.astype(int), minlength=N)
-        if abs(float(np.sum(w)) - 1.0) < 1e-12:
-            count_bound(v, "C07:count-bound", counts, N * w, near)
-            if not near:
-                z = [i for i in range(N) if w[i] == 0.0 and counts[i] > 0]
-                if z:
-                    v.append(("C07:zero-weight-selected", "particle %d has weight 0 and was selected %d times" % (z[0], counts[z[0]])))
-                h = [i for i in range(N) if w[i] >= 1.0 / N + 1e-12 and counts[i] == 0]
-                if h:
-                    v.append(("C07:heavy-not-selected", "particle %d has weight %.6g >= 1/N and was not selected" % (h[0], w[h[0]])))
+        # C07_count_bound_rounded: with the exact weights w/S (S = sum w) the computed cumulative weights are within
+        # delta = |S - 1| (input not normalised, e.g. the guard cases with S = 1 - 1e-3) + (N + 4) 2^-52 (one ulp per exp,
+        # half an ulp per addition of the running sum and of numpy's S, one ulp for the comb point) of the exact ones,
+        # and every count is within 1 + 2 N delta of N w/S (a factor 3 instead of 2 is used).
+        S = float(np.sum(w))
+        delta = abs(S - 1.0) + (N + 4) * EPS
+        if 3.0 * N * delta < 0.5:
+            count_bound(v, "C07:count-bound", counts, N * w / S, 1.0 + 3.0 * N * delta, track=abs(S - 1.0) < 1e-12)
+            h = [i for i in range(N) if N * w[i] / S >= 1.0 + 3.0 * N * delta and counts[i] == 0]
+            if h:
+                v.append(("C07:heavy-not-selected", "particle %d has weight %.6g >= 1/N and was not selected" % (h[0], w[h[0]])))
+        else:
+            _stats["plain_count_bound_not_evaluated_sum_far_from_one"] += 1
+        # C07_count_bound_cumulative: a particle of weight exactly zero adds nothing to the running sum and is never
+        # selected, whatever the sum, unless it is the LAST one and the computed sum falls short of the last comb point
+        # (then the guard idx < N-1 hands the surplus to it: C07_rounding_surplus_Q) - decided on the model's doubles,
+        # which are bit-identical to the library's on this path
+        cs, cb = (col(model, "csw"), col(model, "comb")) if model is not None else (None, None)
+        surplus = cs is None or cb is None or cs.size != N or cb.size != N or not (cb[N - 1] <= cs[N - 1])
+        if surplus:
+            _stats["plain_surplus_to_last_particle"] += 1
+        z = [i for i in range(N) if w[i] == 0.0 and counts[i] > 0 and not (i == N - 1 and surplus)]
+        if z:
+            v.append(("C07:zero-weight-selected", "particle %d has weight 0 and was selected %d times" % (z[0], counts[z[0]])))
         return v
     # ---- prior variant
     ratio = float(c.get("ratio")[0, 0])
@@ -474,41 +656,26 @@ def oracle(c, impl, model):
     bad = [j for j in range(nr) if not is_copy(c, impl, npri + j, src[j])]
     if bad:
         v.append(("C07:prior-right-not-a-copy", "output %d copies the state of input %d but not its mean/covariance" % (npri + bad[0], src[bad[0]])))
-    # the floor(ratio*N) lowest-weight particles are the ones replaced: no copy of a particle lighter than the kept ones
-    # (the library sorts on Eigen's vectorised exp(), which is not monotone on adjacent doubles: log-weights within a
-    #  few ulps of the threshold are excluded from this clause and counted)
-    thr = np.sort(lw)[npri]
-    slack = 8 * float(np.spacing(abs(thr))) if np.isfinite(thr) else 0.0
-    if any(lw[s] < thr and lw[s] >= thr - slack for s in src):
-        _stats["threshold_within_ulps_excluded"] += 1
-    low = [s for s in src if lw[s] < thr - slack]
-    if low:
-        v.append(("C07:prior-kept-lowest", "a copy of particle %d (log-weight %r) survives although %d lighter-or-equal particles were to be replaced (threshold %r)" % (low[0], lw[low[0]], npri, thr)))
     # each resampled particle is a copy of the parent it reports
     mism = [j for j in range(nr) if src[j] != int(pr[j])]
     if mism:
         j = mism[0]
         v.append(("C07:prior-parent-not-source", "N=%d ratio=%g: output %d reports parent %d but is a copy of input particle %d"
                   % (N, ratio, npri + j, int(pr[j]), src[j])))
-    # count bound against the renormalised kept weights
-    keptw = np.where(lw >= thr, w, 0.0)
-    ties_at_thr = int(np.sum(lw == thr)) > 1 and int(np.sum(lw < thr)) < npri
-    if ties_at_thr:
-        _stats["prior_count_bound_skipped_ties_at_threshold"] += 1
-    if keptw.sum() > 0 and not ties_at_thr:
-        counts = np.bincount(np.array(src, dtype=int), minlength=N)
-        count_bound(v, "C07:prior-count-bound", counts, nr * keptw / keptw.sum(), near)
+    partition_clause(v, N, ratio, npri, lw, w, src, near)
     return v
 
 
 def histogram(cases):
-    h = {"kind": {}, "cls": {}, "ratio": {}, "layout": {}, "two_calls_different_N": 0}
+    h = {"kind": {}, "cls": {}, "ratio": {}, "layout": {}, "constructor": {}, "two_calls_different_N": 0}
     for c in cases:
         lay = "quaternion" if int(c.meta.get("quat", 0)) else ("euler" if int(c.meta["dc"]) > 0 else "linear")
         lay += "" if int(c.meta["dl"]) > 0 else "-only"
         h["layout"][lay] = h["layout"].get(lay, 0) + 1
         h["two_calls_different_N"] += 1 if "first" in c.meta else 0
         h["kind"][c.kind] = h["kind"].get(c.kind, 0) + 1
+        ck = "%s/%s" % (c.kind, c.meta.get("ctor", "seed" if c.kind == "plain" else "3"))
+        h["constructor"][ck] = h["constructor"].get(ck, 0) + 1
         h["cls"][c.meta["cls"]] = h["cls"].get(c.meta["cls"], 0) + 1
         if c.kind == "prior":
             h["ratio"][c.meta["rclass"]] = h["ratio"].get(c.meta["rclass"], 0) + 1
@@ -519,7 +686,9 @@ def histogram(cases):
 LEVEL_TEXT = ("Proof: the model of Resampling::resample (sequential cumulative sums, comb u1 + j/N, carried pointer), Resampling::neff and "
               "ResamplingWithPrior::resample is proved over the reals, for every N >= 1, every non-negative weight vector of sum 1 and every "
               "0 < u1 < 1/N, to return N copies of the reported parents, non-decreasing in-range parents, weights -ln N, replication counts within "
-              "one of N w_i, neff = 1/sum w^2 in [1, N]; the prior variant replaces the floor(ratio N) lightest particles and reports N particles. "
+              "one of N w_i, neff = 1/sum w^2 in [1, N]; the prior variant replaces floor(ratio N) particles none of which is heavier than a surviving one "
+              "(replaced + survivors enumerate the input without duplicates; under exact ties every admissible choice replaces all particles below the "
+              "split weight and keeps all above it), resamples the survivors only, and reports N particles. "
               "The model is tied to the code by running the extracted model and the library on the same generated cases with the mirrored random offset.")
 LEVEL_NOTE = ("Trusted: Coq kernel + the 4 real-number axioms, extraction + float driver, harness and RNG mirror; rounding is not modelled (near-boundary comb points "
               "are counted and skipped); the tie to the code is sampled. C07_Regress.v keeps the pre-d9796b9 transcription of the prior variant (parents as positions in the "
